@@ -129,8 +129,7 @@ def get_root_include_path(filename):
         return None
     root_path = None
     full_file_path = os.path.abspath(
-        os.path.normpath(
-            os.path.expanduser(filename)))
+        os.path.normpath(filename))
     for candidate in PICO8_CART_PATHS:
         full_candidate_path = os.path.abspath(
             os.path.normpath(
